@@ -42,7 +42,7 @@ THEOREMS_BY_PROP = {
             "DepLogic.C14.obj_absorb_or_and", "DepLogic.C14.obj_and_or_distrib", "DepLogic.C14.obj_or_and_distrib",
             "DepLogic.C14.obj_invert_involution", "DepLogic.C14.obj_de_morgan_and", "DepLogic.C14.obj_de_morgan_or",
             "DepLogic.C14.obj_complement", "DepLogic.Spec.canon_unique"],
-    "C10": ["DepLogic.C10.call_ok", "DepLogic.C10.history_transparent", "DepLogic.C10.probe_independent",
+    "C10": ["DepLogic.C10.call_ok", "DepLogic.C10.history_transparent", "DepLogic.C10.callN_ok", "DepLogic.C10.history_transparent_tuple", "DepLogic.C10.probe_independent",
             "DepLogic.C10.not_transparent_without_wf"]}
 THEOREMS: list[str] = []
 
